@@ -1,6 +1,7 @@
 package props
 
 import (
+	"encoding/json"
 	"fmt"
 	"math/big"
 	"sync"
@@ -274,14 +275,82 @@ func genLimbSubst() *rapid.Generator[eng.Subst] {
 	})
 }
 
+// ---------- populations of collected checks (commit checker) ----------
+// The commit checker's limb width depends on how many checks of which widths the whole circuit
+// collects; the chip mirrors gnark's estimate and refuses circuits where it is not 16.  Whatever
+// the population, a circuit that compiles must enforce the exact range.
+
+type c06Pop struct {
+	Backend string `json:"backend"` // r1cs | scs
+	Width   uint64 `json:"width"`   // width of the check under test
+	PadN    int    `json:"pad_count"`
+	PadFull bool   `json:"pad_full_rangecheck"` // pad with Goldilocks RangeCheck (two 32-bit checks) instead of 16-bit checks
+	V       string `json:"v"`
+}
+
+var c06PopSystems = map[string]c06PopSys{}
+
+type c06PopSys struct {
+	sys *cs.System
+	err error
+}
+
+func c06PopRun(a c06Pop) (string, string, string) {
+	key := fmt.Sprintf("%s/%d/%d/%v", a.Backend, a.Width, a.PadN, a.PadFull)
+	ps, ok := c06PopSystems[key]
+	if !ok {
+		kind := cs.R1CS
+		if a.Backend == "scs" {
+			kind = cs.SCS
+		}
+		fn := func(api frontend.API, in []frontend.Variable) []frontend.Variable {
+			c := gl.New(api)
+			c.RangeCheckWithMaxBits(glv(in[0]), a.Width)
+			for i := 0; i < a.PadN; i++ {
+				if a.PadFull {
+					c.RangeCheck(glv(in[1]))
+				} else {
+					c.RangeCheckWithMaxBits(glv(in[1]), 16)
+				}
+			}
+			return nil
+		}
+		ps.sys, ps.err = cs.Compile(kind, cs.MechCommit, 2, 0, fn)
+		if len(c06PopSystems) > 6 {
+			c06PopSystems = map[string]c06PopSys{}
+		}
+		c06PopSystems[key] = ps
+	}
+	if ps.err != nil {
+		return "", "", "refused"
+	}
+	v := bs(a.V)
+	serr := ps.sys.Solve([]*big.Int{v, big.NewInt(0)}, nil)
+	if (serr == nil) != inRange(v, a.Width) {
+		return "population/" + a.Backend, fmt.Sprintf("%s circuit with one %d-bit check and %d padding checks (commit checker) compiles, but value %s: solved=%v, in range=%v", a.Backend, a.Width, a.PadN, v, serr == nil, inRange(v, a.Width)), "compiled"
+	}
+	return "", "", "compiled"
+}
+
 func TestC06(t *testing.T) {
 	r := rec.New("C06")
 	defer r.Flush()
-	r.Rule("value v (anchors 0, 2^16, 2^32, 2^48, 2^63, 2^64-2^32, p, 2^64, 2^n-1.., r with offsets -2..2; random of every bit length; random inside the range) x gadget {RangeCheck, RangeCheckWithMaxBits(n), n in 1..64,96,128,144,192} x configuration {engine: native / plain / commit(padded to 70k checks), each also with USE_BIT_DECOMPOSITION_RANGE_CHECK; compiled R1CS and SCS built for native-range-checker wrapper / commit / forced bits; gnark test engine}; out-of-range values are also tried with dishonest limb hints.  Oracle: accepted <=> v < p (resp. v < 2^n); commit-mode widths not multiple of 16 may be refused.  Non-trivial = value within 2 of a range/field boundary or a dishonest hint; distinct = (v, n, configuration, hint).")
+	r.Rule("value v (anchors 0, 2^16, 2^32, 2^48, 2^63, 2^64-2^32, p, 2^64, 2^n-1.., r with offsets -2..2; random of every bit length; random inside the range) x gadget {RangeCheck, RangeCheckWithMaxBits(n), n in 1..64,96,128,144,192} x configuration {engine: native / plain / commit(padded to 70k checks), each also with USE_BIT_DECOMPOSITION_RANGE_CHECK; compiled R1CS and SCS built for native-range-checker wrapper / commit / forced bits; gnark test engine}; out-of-range values are also tried with dishonest limb hints and a dishonest bit-decomposition hint; 'populations': one w-bit check (w in 16,32,48,64) plus 0..72000 padding checks compiled for R1CS and SCS under the commit checker - circuits the chip refuses are counted, circuits that compile must be exact at 2^w-1, 2^(w+j), 2^(w+j)+1.  Oracle: accepted <=> v < p (resp. v < 2^n); commit-mode widths not multiple of 16 may be refused.  Non-trivial = value within 2 of a range/field boundary or a dishonest hint; distinct = (v, n, configuration, hint).")
 	r.Assume("gnark v0.9.1 builders/solver and std/rangecheck as shipped", "the native-range-checker builder wrapper implements Check by bit decomposition inside the wrapped builder")
 
 	var rp c06Replay
 	if is, err := rec.LoadReplay(&rp); is {
+		if err == nil && rp.Backend == "population" {
+			var a c06Pop
+			json.Unmarshal([]byte(rp.Config), &a)
+			k, d, _ := c06PopRun(a)
+			r.Case("replay", true, rp.Config, func() any { return a })
+			if k != "" {
+				r.Fail(t, "C06/"+k, rp, "%s", d)
+			}
+			r.Done()
+			return
+		}
 		if err != nil {
 			r.Infra(t, "replay: %v", err)
 		}
@@ -434,6 +503,43 @@ func TestC06(t *testing.T) {
 			}
 		})
 	}
+
+	// B2. populations of collected checks under the commit checker
+	popRefused, popCompiled := 0, 0
+	rapidCheck(t, "population", tierN(45, 1500), func(rt *rapid.T) {
+		a := c06Pop{Backend: rapid.SampledFrom([]string{"r1cs", "scs", "scs"}).Draw(rt, "backend"), Width: rapid.SampledFrom([]uint64{16, 32, 48, 64}).Draw(rt, "width"), PadFull: rapid.Bool().Draw(rt, "pad_full")}
+		switch rapid.IntRange(0, 9).Draw(rt, "size") {
+		case 0, 1, 2:
+			a.PadN = rapid.IntRange(0, 40).Draw(rt, "pad")
+		case 3, 4, 5, 6:
+			a.PadN = rapid.IntRange(41, 4000).Draw(rt, "pad")
+		case 7, 8:
+			a.PadN = rapid.IntRange(4001, 40000).Draw(rt, "pad")
+		default:
+			a.PadN = rapid.IntRange(60000, 72000).Draw(rt, "pad")
+		}
+		shift := rapid.IntRange(0, 9).Draw(rt, "shift")
+		vals := []*big.Int{new(big.Int).Sub(pow2(uint(a.Width)), big.NewInt(1)), pow2(uint(a.Width) + uint(shift)), new(big.Int).Add(pow2(uint(a.Width)+uint(shift)), big.NewInt(1))}
+		for _, v := range vals {
+			a.V = v.String()
+			k, d, st := c06PopRun(a)
+			if st == "refused" {
+				popRefused++
+			} else {
+				popCompiled++
+			}
+			r.Case("population/"+a.Backend+"/"+st, true, fmt.Sprint(a), func() any { return a })
+			if k != "" {
+				cfg, _ := json.Marshal(a)
+				r.Fail(rt, "C06/"+k, c06Replay{Backend: "population", Config: string(cfg), Width: a.Width, V: a.V}, "%s", d)
+			}
+			if st == "refused" {
+				break
+			}
+		}
+	})
+	r.AddExtra("population_cases_refused_at_compile", popRefused)
+	r.AddExtra("population_cases_compiled", popCompiled)
 
 	// C. gnark's own test engine (commit-capable; forced bits and padded commit)
 	if rec.Mine(3) {
